@@ -14,7 +14,8 @@
    object).  `normalize` stores the attribute `normalized_objectives` ON the solution
    objects; that is modelled by a [store] (sid -> normalized objectives) which normalize
    updates and the distance functions / indicators read.  The reference set is normalised
-   once, at construction of the indicator; `calculate` normalises the feasible members of
+   at construction of the indicator and again at the start of every `calculate` (repaired
+   code, fixes/acef3b8.diff; flag rn); `calculate` then normalises the feasible members of
    its argument into the same store.
 
    Reusable exports (C15 and C10 import these):
@@ -213,14 +214,24 @@ Definition eps_inner (nobjs : nat) (dirs : list bool) (n2 n1 : list Q) : res Q :
                          Ok (adj_diff mx a b)) (seq 0 nobjs);
   qmaxl l.
 
-(* EpsilonIndicator.calculate (indicators.py:89-99) *)
-Definition eps_calculate (nobjs : nat) (dirs : list bool) (ist : ind_state) (st : store) (set : list isol)
+(* normalize(self.reference_set, self.minimum, self.maximum) at the start of calculate
+   (added by fixes/acef3b8.diff): the reference objects are re-normalised on EVERY call, so
+   whatever other code wrote into their normalized_objectives in between is overwritten.
+   rn = true: the repaired code; rn = false: the code before the repair (reference set
+   normalised only once, in the constructor). *)
+Definition renorm_ref (rn : bool) (nobjs : nat) (ist : ind_state) (st : store) : res store :=
+  if rn then do r <- normalize nobjs st (i_ref ist) (Some (i_min ist)) (Some (i_max ist)); Ok (snd r)
+  else Ok st.
+
+(* EpsilonIndicator.calculate (indicators.py:92-102) *)
+Definition eps_calculate (rn : bool) (nobjs : nat) (dirs : list bool) (ist : ind_state) (st : store) (set : list isol)
   : res (xval * store) :=
   let feas := feasible set in
   match feas with
   | [] => Ok (XInf, st)
   | _ =>
-    do r <- normalize nobjs st feas (Some (i_min ist)) (Some (i_max ist));
+    do st0 <- renorm_ref rn nobjs ist st;
+    do r <- normalize nobjs st0 feas (Some (i_min ist)) (Some (i_max ist));
     let st' := snd r in
     do outer <- mapM (fun s1 =>
                   do n1 <- store_get st' (s_sid s1);
@@ -242,24 +253,26 @@ Fixpoint all_fin (l : list xval) : option (list Q) :=
   | XFin q :: r => match all_fin r with Some qs => Some (q :: qs) | None => None end
   end.
 
-(* GenerationalDistance.calculate (indicators.py:45-52) *)
-Definition gd_calculate (nobjs : nat) (ist : ind_state) (st : store) (set : list isol) : res (ingredients * store) :=
+(* GenerationalDistance.calculate (indicators.py:45-53) *)
+Definition gd_calculate (rn : bool) (nobjs : nat) (ist : ind_state) (st : store) (set : list isol) : res (ingredients * store) :=
   let feas := feasible set in
   match feas with
   | [] => Ok (IInf, st)
   | _ =>
-    do r <- normalize nobjs st feas (Some (i_min ist)) (Some (i_max ist));
+    do st0 <- renorm_ref rn nobjs ist st;
+    do r <- normalize nobjs st0 feas (Some (i_min ist)) (Some (i_max ist));
     let st' := snd r in
     do ds <- mapM (fun s => nearest_sq st' s (i_ref ist)) feas;
     Ok (match all_fin ds with Some ts => ITerms ts (length feas) | None => IInf end, st')
   end.
 
-(* InvertedGenerationalDistance.calculate (indicators.py:72-75): no early exit; with no
+(* InvertedGenerationalDistance.calculate (indicators.py:72-76): no early exit; with no
    feasible member normalize returns at once, every distance_to_nearest is +inf and
    pow(inf,d), sum, pow(.,1/d), /len all keep +inf *)
-Definition igd_calculate (nobjs : nat) (ist : ind_state) (st : store) (set : list isol) : res (ingredients * store) :=
+Definition igd_calculate (rn : bool) (nobjs : nat) (ist : ind_state) (st : store) (set : list isol) : res (ingredients * store) :=
   let feas := feasible set in
-  do r <- normalize nobjs st feas (Some (i_min ist)) (Some (i_max ist));
+  do st0 <- renorm_ref rn nobjs ist st;
+  do r <- normalize nobjs st0 feas (Some (i_min ist)) (Some (i_max ist));
   let st' := snd r in
   do ds <- mapM (fun s => nearest_sq st' s feas) (i_ref ist);
   Ok (match all_fin ds with Some ts => ITerms ts (length (i_ref ist)) | None => IInf end, st').
@@ -291,11 +304,11 @@ Definition spacing_calculate (set : list isol) : res Q :=
 
 (* ---------- constructor + one call on a fresh interpreter state ---------- *)
 Definition eps_indicator (nobjs : nat) (dirs : list bool) (ref set : list isol) : res xval :=
-  do c <- ind_make nobjs [] ref; do r <- eps_calculate nobjs dirs (fst c) (snd c) set; Ok (fst r).
+  do c <- ind_make nobjs [] ref; do r <- eps_calculate true nobjs dirs (fst c) (snd c) set; Ok (fst r).
 Definition gd_indicator (nobjs : nat) (ref set : list isol) : res ingredients :=
-  do c <- ind_make nobjs [] ref; do r <- gd_calculate nobjs (fst c) (snd c) set; Ok (fst r).
+  do c <- ind_make nobjs [] ref; do r <- gd_calculate true nobjs (fst c) (snd c) set; Ok (fst r).
 Definition igd_indicator (nobjs : nat) (ref set : list isol) : res ingredients :=
-  do c <- ind_make nobjs [] ref; do r <- igd_calculate nobjs (fst c) (snd c) set; Ok (fst r).
+  do c <- ind_make nobjs [] ref; do r <- igd_calculate true nobjs (fst c) (snd c) set; Ok (fst r).
 
 (* all rows of squared distances the implementation hands to math.sqrt, in call order
    (used by the correspondence to compare every intermediate exactly) *)
@@ -304,13 +317,15 @@ Definition gd_rows (nobjs : nat) (ref set : list isol) : res (list (list Q)) :=
   let feas := feasible set in
   match feas with
   | [] => Ok []
-  | _ => do r <- normalize nobjs (snd c) feas (Some (i_min (fst c))) (Some (i_max (fst c)));
+  | _ => do st0 <- renorm_ref true nobjs (fst c) (snd c);
+         do r <- normalize nobjs st0 feas (Some (i_min (fst c))) (Some (i_max (fst c)));
          mapM (fun s => sq_row (snd r) s (i_ref (fst c))) feas
   end.
 Definition igd_rows (nobjs : nat) (ref set : list isol) : res (list (list Q)) :=
   do c <- ind_make nobjs [] ref;
   let feas := feasible set in
-  do r <- normalize nobjs (snd c) feas (Some (i_min (fst c))) (Some (i_max (fst c)));
+  do st0 <- renorm_ref true nobjs (fst c) (snd c);
+  do r <- normalize nobjs st0 feas (Some (i_min (fst c))) (Some (i_max (fst c)));
   match feas with
   | [] => Ok (map (fun _ => []) (i_ref (fst c)))       (* distance_to_nearest returns +inf at once: no sqrt *)
   | _ => mapM (fun s => sq_row (snd r) s feas) (i_ref (fst c))
